@@ -34,14 +34,14 @@ ASSUMPTIONS = [
     'the fate of the in-flight update of a process deleted/moved/divided away '
     'is unspecified (only: no exception, never invoked again under the old '
     'path)',
-    'operator is a process here (step operators are exercised by C07/C09)',
+    'with a step operator the construction phase is only checked for "at most once" (the hierarchy before the first batch is not observed)',
 ]
 
 
 def strategy(tier):
     return struct.histories(viewers=False, residents=True, inc_ok=True,
                             max_ticks=6 if tier == 'quick' else 10,
-                            step_op_ok=False)
+                            step_op_ok=True)
 
 
 def live_instances(engine):
@@ -223,10 +223,33 @@ def check_invocations(spec, res, ctx, lives, engine):
                 step_runs[ev[4]] = step_runs.get(ev[4], 0) + 1
                 step_order.append(ev[4])
         step_ids = {}
-        for path, ident in live.items():
-            if path[-1] in ('obs', 'der', 'obs2'):
-                step_ids[ident] = path
-        if a != b or t == 0:
+        if spec['op_is_step'] and t != 0:
+            # the operator is a step of the first layer: derivers and 'obs'
+            # steps of the hierarchy as it was when the phase began run once
+            # (also those the operator deletes in this very phase); a step of
+            # a later layer ('obs2') runs only if it is not deleted or moved
+            # before its turn; steps created during the phase run first in
+            # the next one
+            before = {(i2, p2) for p2, i2 in prev_live.items()}
+            for path, ident in prev_live.items():
+                if path[-1] in ('obs', 'der'):
+                    step_ids[ident] = path
+                elif path[-1] == 'obs2' and live.get(path) == ident:
+                    step_ids[ident] = path
+        elif spec['op_is_step']:
+            # construction phase: the hierarchy before the operator's first
+            # batch was not observed; only "at most once" is checked
+            for ident, n_runs in step_runs.items():
+                if n_runs > 1:
+                    res.fail('step.count', 'construction phase: a step ran %d '
+                             'times' % n_runs, 'engine.py:run_steps')
+                    return
+            step_ids = None
+        else:
+            for path, ident in live.items():
+                if path[-1] in ('obs', 'der', 'obs2'):
+                    step_ids[ident] = path
+        if step_ids is not None and (a != b or t == 0):
             for ident, path in step_ids.items():
                 if step_runs.get(ident, 0) != 1:
                     res.fail('step.count', 'phase at %r: step %r ran %d times'
@@ -235,11 +258,13 @@ def check_invocations(spec, res, ctx, lives, engine):
                     return
             for ident in step_runs:
                 if ident not in step_ids:
-                    res.fail('step.not_live', 'phase at %r: a step that is not '
-                             'in the hierarchy ran' % (t,), 'engine.py:run_steps')
+                    res.fail('step.not_live', 'phase at %r: a step ran that '
+                             'was not in the hierarchy (or was deleted before '
+                             'its turn, or created during this phase)' % (t,),
+                             'engine.py:run_steps')
                     return
             # flow of generated/moved/divided steps: obs2 depends on obs
-            byp = {path: ident for ident, path in step_ids.items()}
+            byp = {path: ident for ident, path in (step_ids or {}).items()}
             for path, ident in byp.items():
                 if path[-1] == 'obs2':
                     dep = byp.get(path[:-1] + ('obs',))
@@ -322,7 +347,7 @@ def check_values(spec, res, ctx, lives_all, engine, tsof):
         if ev[0] == 'op':
             for op in ev[4]:
                 if op['op'] == 'set' and 'x' in op['delta']:
-                    sets.append((ev[2] + 1.0,
+                    sets.append((ev[2] + (0.0 if spec['op_is_step'] else 1.0),
                                  ref.PORT_PATH[op['coll']] + (op['key'],),
                                  op['delta']['x']))
     incs = {}
